@@ -595,6 +595,13 @@ class NN:
             if b is None or a == b:
                 return a
             return None
+        if head(upd) == "mut" and upd[1] in ("update", "extend") and len(upd[3]) == 1:
+            # acc.update(collection of positions)
+            inner = self._accum_space(q, upd[2], lid, name)
+            sp = self.coll_space(q, self._get_as_subscript(q, upd[3][0]))
+            if inner is not None and inner != sp:
+                return None
+            return sp
         if head(upd) == "mut" and upd[1] in ("add", "append") and len(upd[3]) == 1:
             inner = self._accum_space(q, upd[2], lid, name)
             sp = self.idx_space(q, upd[3][0])
@@ -737,7 +744,7 @@ class NN:
             for trip, kind, extra_guards, extra_loops in cands:
                 base = [(g, pol) for g, pol in e.ctx.guards if not (pol and strip_all(g) in asserted)]
                 claims = [(g, pol) for g, pol in e.ctx.guards if pol and strip_all(g) in asserted]
-                gm = lambda t: self._get_as_subscript(q, t)
+                gm = lambda t: self._get_as_subscript(q, self._inline_pure(t))
                 for d_term, guards in self._distance_variants(trip[2], base + extra_guards):
                     g2 = self.fold_guards([(gm(g), pol) for g, pol in guards], m, q)
                     if g2 is None:
@@ -767,13 +774,24 @@ class NN:
                 out.append(Site(q, s.func.node, fold(trip[0], m), fold(trip[1], m), fold(trip[2], m), g2, loops, "comp", None))
         return out
 
+    def _inline_pure(self, t):
+        """Option-resolution helpers introduced after the rules were validated (pure functions returning tuples / values) are read through."""
+        from .rules import inline_new_helpers, rewrite as _rw, small_rewrites
+        t0 = strip_all(t)
+        if not any(x[0] == "call" and head(strip(x[1])) == "glob" and strip(x[1])[1] in self.P.functions for x in walk(t0)):
+            return t
+        inl = inline_new_helpers(self.r, t0)
+        if inl == t0:
+            return t
+        return _rw(strip_all(inl), small_rewrites)
+
     def _get_as_subscript(self, q, t):
         """For a dictionary of positions D:  D.get(k) [is None]  reads as  D[k] [k not in D]."""
         from .rules import rewrite as _rw
 
         def is_map_get(x):
             x = strip(x)
-            if is_mcall(x, "get") and not x[3] and (len(x[2]) == 1 or (len(x[2]) == 2 and is_const(strip(x[2][1]), None))):
+            if is_mcall(x, "get") and not x[3] and (len(x[2]) == 1 or (len(x[2]) == 2 and (is_const(strip(x[2][1]), None) or (head(strip(x[2][1])) in ("tuple", "list") and not strip(x[2][1])[1])))):
                 return self.map_info(q, strip(x[1])[1]) is not None
             return False
 
